@@ -133,6 +133,12 @@ def run(ctx, proof):
     shutil.rmtree(workdir, ignore_errors=True)
     ctx.extra["programs"] = ctx.evaluations
     ctx.extra["processes_per_case"] = nproc
+    ctx.extra["explanation"] = ("level `other`: (1) Lean theorem schedule_irrelevant — the meaning of the compiled automaton does not depend on the "
+                                "work-list order; (2) Lean theorem nondet_sources_ok, decided by the kernel on the inventory of order-bearing "
+                                "containers / run-time reads / crate versions that tools/translate.py regenerates from src/*.rs, Cargo.toml and "
+                                "Cargo.lock on every run; (3) observation: the real binary in fresh processes with differing environments, script + "
+                                "--dfa + --regex + stderr digests compared byte for byte. (3) is exploration, (1)-(2) are proofs about the model / "
+                                "the source inventory; no theorem can state byte identity across OS processes, hence `other`.")
     ctx.assumptions.append("byte identity across processes is observed (fresh processes, differing environments, ASLR), not proved")
 
 
